@@ -286,3 +286,160 @@ Proof.
     rewrite mul_operand_frag; auto; [|apply dmerge_entries; auto; reflexivity].
     cbn [bind fst snd]. exists (dmerge [] (mterms a)), (mterms b). split; [reflexivity | right; right; auto].
 Qed.
+
+(* ---------- Mul::from_dict on the fragment: closure, well-formedness, canonical form ---------- *)
+Lemma atom_operand : forall k, atom_ok k = true -> forall s, mul_operand_ok_gen s k = true.
+Proof.
+  intros k H s. destruct (atom_ok_inv _ H) as (_ & _ & A).
+  destruct k; try discriminate A; exact H.
+Qed.
+
+Lemma qexp_not_one : forall n, qexp_ok n = true -> n <> NInt 1 -> num_is_one n = false /\ expr_eqb (ENum n) e_one = false.
+Proof.
+  intros n Q NE. pose proof (qexp_ok_xok _ Q) as X. split.
+  - destruct (num_is_one n) eqn:O; [|reflexivity]. apply is_one_eq in O; auto. contradiction.
+  - unfold e_one, e_int. rewrite eqb_ENum. destruct (SE.Expr.Cmp.num_eqb n (NInt 1)) eqn:E; [|reflexivity].
+    apply cmp_num_eqb_eq in E; auto. contradiction.
+Qed.
+
+Lemma msorted_single : forall p, msorted [p] = true. Proof. reflexivity. Qed.
+
+Theorem mfd_closed : forall s c d, xok c = true -> mentries_ok d = true -> (s = true -> msorted d = true) ->
+  mul_operand_ok_gen s (mul_from_dict c d) = true.
+Proof.
+  intros s c d Xc D SD. unfold mul_from_dict. destruct (num_is_zero c) eqn:Zc; [exact Xc|].
+  assert (MUL : forall p r, d = p :: r -> (num_is_one c = false \/ r <> []) -> mul_operand_ok_gen s (EMul c d) = true).
+  { intros p r -> H. cbn [mul_operand_ok_gen]. rewrite Xc, Zc, D. cbn [negb andb].
+    assert (S' : (if s then msorted (p :: r) else true) = true) by (destruct s; auto).
+    rewrite S'. cbn [andb]. destruct H as [O|NE]; [rewrite O; reflexivity|].
+    destruct r; [contradiction|]. now rewrite andb_false_r. }
+  destruct d as [|[k v] [|p2 d]].
+  - exact Xc.
+  - cbn [mentries_ok forallb] in D. rewrite andb_true_r in D. destruct (mentry_ok_inv k v D) as (T & n & -> & Q).
+    destruct (num_is_one c) eqn:Oc.
+    + assert (G : n <> NInt 1 -> mul_operand_ok_gen s (if expr_eqb (ENum n) e_one then k else EPow k (ENum n)) = true).
+      { intros NE. destruct (qexp_not_one n Q NE) as [O E]. rewrite E. cbn [mul_operand_ok_gen]. now rewrite T, Q, O. }
+      destruct n as [z| | | | | | ]; try (apply G; discriminate).
+      destruct (z =? 1) eqn:Z1; [now apply atom_operand|]. apply G. intros Q1. injection Q1 as ->. discriminate Z1.
+    + assert (M : mul_operand_ok_gen s (EMul c [(k, ENum n)]) = true).
+      { apply (MUL (k, ENum n) []); auto. }
+      destruct n; exact M.
+  - apply (MUL (k, v) (p2 :: d)); auto. right. discriminate.
+Qed.
+
+Lemma wf_ENum_x : forall n, xok n = true -> wf (ENum n) = true.
+Proof. exact xok_wf_expr. Qed.
+
+Lemma wf_EMul_intro : forall c d, xok c = true -> (forall p, In p d -> wf (fst p) = true /\ wf (snd p) = true) ->
+  wf (EMul c d) = true.
+Proof.
+  intros c d Xc H. apply wf_intro.
+  - cbn [wf_struct]. rewrite (xok_wf c Xc). cbn [andb]. apply forallb_forall. intros p Hp.
+    destruct (H p Hp) as [A B]. now rewrite (proj1 (wf_parts _ A)), (proj1 (wf_parts _ B)).
+  - cbn [codes_ok]. rewrite node_ok_Mul. cbn [andb]. apply forallb_forall. intros p Hp.
+    destruct (H p Hp) as [A B]. now rewrite (proj2 (wf_parts _ A)), (proj2 (wf_parts _ B)).
+Qed.
+
+Lemma node_ok_Pow : forall b e, node_ok (EPow b e) = true. Proof. reflexivity. Qed.
+Lemma wf_EPow_intro : forall b e, wf b = true -> wf e = true -> wf (EPow b e) = true.
+Proof.
+  intros b e A B. apply wf_intro.
+  - cbn [wf_struct]. now rewrite (proj1 (wf_parts _ A)), (proj1 (wf_parts _ B)).
+  - cbn [codes_ok]. now rewrite node_ok_Pow, (proj2 (wf_parts _ A)), (proj2 (wf_parts _ B)).
+Qed.
+
+Lemma mentries_wf : forall d, mentries_ok d = true -> forall p, In p d -> wf (fst p) = true /\ wf (snd p) = true.
+Proof.
+  intros d D [k v] Hp. destruct (mentry_ok_inv k v (mentries_in _ _ D Hp)) as (T & n & -> & Q). cbn [fst snd].
+  split; [apply (atom_ok_inv _ T) | apply wf_ENum_x; now apply qexp_ok_xok].
+Qed.
+
+Theorem mfd_wf : forall c d, xok c = true -> mentries_ok d = true -> wf (mul_from_dict c d) = true.
+Proof.
+  intros c d Xc D. unfold mul_from_dict. destruct (num_is_zero c); [now apply wf_ENum_x|].
+  pose proof (mentries_wf d D) as W.
+  destruct d as [|[k v] [|p2 d]]; [now apply wf_ENum_x | | now apply wf_EMul_intro].
+  destruct (W (k, v) (or_introl eq_refl)) as [Wk Wv]. cbn [fst snd] in *.
+  assert (G : wf (if num_is_one c then if expr_eqb v e_one then k else EPow k v else EMul c [(k, v)]) = true).
+  { destruct (num_is_one c); [destruct (expr_eqb v e_one); [exact Wk | now apply wf_EPow_intro] | now apply wf_EMul_intro]. }
+  destruct v as [[z| | | | | | ]| | | | | | | | | | | | | | | | | ]; try exact G.
+  destruct (num_is_one c); [|now apply wf_EMul_intro]. destruct (z =? 1); [exact Wk | exact G].
+Qed.
+
+Lemma mentry_canonical : forall k n, atom_ok k = true -> qexp_ok n = true ->
+  mul_entry_canonical (k, ENum n) = true /\ canonical k = true /\ canonical (ENum n) = true.
+Proof.
+  intros k n T Q. destruct (atom_ok_inv _ T) as (_ & C & A). split; [|split; [exact C|]].
+  - unfold mul_entry_canonical. cbn [fst snd is_number_and_zero]. rewrite (qexp_ok_nz _ Q).
+    destruct k; try discriminate A; reflexivity.
+  - cbn [canonical node_canonical]. rewrite (xok_canonical n (qexp_ok_xok _ Q)). reflexivity.
+Qed.
+
+Lemma canonical_EMul_frag : forall c d, xok c = true -> num_is_zero c = false -> mentries_ok d = true ->
+  d <> [] -> (num_is_one c = false \/ (2 <= length d)%nat) -> canonical (EMul c d) = true.
+Proof.
+  intros c d Xc Zc D NE H. cbn [canonical node_canonical]. rewrite (xok_canonical c Xc). cbn [andb].
+  assert (ENT : forallb mul_entry_canonical d = true /\ forallb (fun p => canonical (fst p) && canonical (snd p)) d = true).
+  { split; apply forallb_forall; intros [k v] Hp;
+      destruct (mentry_ok_inv k v (mentries_in _ _ D Hp)) as (T & n & -> & Q);
+      destruct (mentry_canonical k n T Q) as (A & B & C'); cbn [fst snd]; [exact A | now rewrite B, C']. }
+  destruct ENT as [E1 E2]. rewrite E2, andb_true_r. unfold mul_node_canonical. rewrite Zc. cbn [negb andb].
+  destruct d as [|p [|q d]]; [contradiction | | exact E1].
+  destruct H as [O|L]; [rewrite O; exact E1 | cbn [length] in L; lia].
+Qed.
+
+Lemma canonical_EPow_frag : forall k n, atom_ok k = true -> qexp_ok n = true -> n <> NInt 1 ->
+  canonical (EPow k (ENum n)) = true.
+Proof.
+  intros k n T Q NE. destruct (mentry_canonical k n T Q) as (_ & Ck & Cn). destruct (atom_ok_inv _ T) as (_ & _ & A).
+  change (canonical (EPow k (ENum n))) with (node_canonical (EPow k (ENum n)) && (canonical k && canonical (ENum n))).
+  rewrite Ck, Cn, andb_true_r. cbn [node_canonical].
+  unfold pow_node_canonical. cbn [is_number_and_zero]. rewrite (qexp_ok_nz _ Q).
+  assert (I1 : is_int_val (ENum n) 1 = false).
+  { cbn [is_int_val]. destruct n; try reflexivity. apply Z.eqb_neq. intros ->. contradiction. }
+  rewrite I1. destruct k; try discriminate A; reflexivity.
+Qed.
+
+Theorem mfd_canonical : forall c d, xok c = true -> mentries_ok d = true -> canonical (mul_from_dict c d) = true.
+Proof.
+  intros c d Xc D. unfold mul_from_dict.
+  assert (NUM : canonical (ENum c) = true) by (cbn [canonical node_canonical]; now rewrite (xok_canonical c Xc)).
+  destruct (num_is_zero c) eqn:Zc; [exact NUM|].
+  destruct d as [|[k v] [|p2 d]]; [exact NUM | |].
+  - cbn [mentries_ok forallb] in D. pose proof D as D'. rewrite andb_true_r in D'.
+    destruct (mentry_ok_inv k v D') as (T & n & -> & Q).
+    assert (M : num_is_one c = false -> canonical (EMul c [(k, ENum n)]) = true).
+    { intros O. apply canonical_EMul_frag; auto. discriminate. }
+    destruct (num_is_one c) eqn:Oc.
+    + assert (G : n <> NInt 1 -> canonical (if expr_eqb (ENum n) e_one then k else EPow k (ENum n)) = true).
+      { intros NE. destruct (qexp_not_one n Q NE) as [_ E]. rewrite E. now apply canonical_EPow_frag. }
+      destruct n as [z| | | | | | ]; try (apply G; discriminate).
+      destruct (z =? 1) eqn:Z1; [apply (atom_ok_inv _ T)|]. apply G. intros Q1. injection Q1 as ->. discriminate Z1.
+    + destruct n; now apply M.
+  - apply canonical_EMul_frag; auto; [discriminate | right; cbn [length]; lia].
+Qed.
+
+(* ---------- C03: mul on the fragment ---------- *)
+Theorem mul_total_closed : forall f a b, mul_operand_ok a = true -> mul_operand_ok b = true ->
+  exists r, e_mul (S (S f)) a b = Ok r /\ mul_operand_ok r = true /\ canonical r = true /\ wf r = true.
+Proof.
+  intros f a b Ha Hb. destruct (e_mul_spec f a b Ha Hb) as (X & Y & E & XY).
+  destruct (mul_operand_ok_terms _ a Ha) as [Xa Ta]. destruct (mul_operand_ok_terms _ b Hb) as [Xb Tb].
+  assert (D : mentries_ok (dmerge X Y) = true).
+  { destruct XY as [[-> ->]|[[-> ->]|[-> ->]]]; apply dmerge_entries; auto. apply dmerge_entries; auto. }
+  assert (Xc : xok (xmul (mconst a) (mconst b)) = true) by auto using xmul_xok.
+  eexists. split; [exact E|]. split; [|split].
+  - apply mfd_closed; auto. discriminate.
+  - now apply mfd_canonical.
+  - now apply mfd_wf.
+Qed.
+
+Theorem mul_canonical : forall fuel a b r, mul_operand_ok a = true -> mul_operand_ok b = true ->
+  e_mul fuel a b = Ok r -> mul_operand_ok r = true /\ canonical r = true /\ wf r = true.
+Proof.
+  intros fuel a b r Ha Hb E.
+  destruct (mul_total_closed fuel a b Ha Hb) as (r' & E' & C).
+  assert (L : (fuel <= S (S fuel))%nat) by lia.
+  pose proof (le_ok _ _ _ r (e_mul_mono fuel (S (S fuel)) a b L) E) as E2.
+  rewrite E' in E2. injection E2 as ->. exact C.
+Qed.
